@@ -541,7 +541,7 @@ Lemma rt_bond_delegates_ok w0 w g e xs p :
   length xs = length vals -> sumN xs = p -> p <= bal e A_hub usei ->
   exists e' n,
     Exec (set_env w0 e) (map (fun m => (A_hub, m)) (delegate_msgs vals xs usei)) (set_env w0 e') n /\
-    (n <= 8)%nat.
+    (n <= 12)%nat.
 Proof.
   intros Hok Hgh Hdel vals Hxl Hxs Hbal.
   destruct (vals_facts w g Hok Hgh Hdel) as (_ & Hvlen & _ & Hvval & _). fold vals in Hvlen, Hvval.
